@@ -8,6 +8,7 @@ package shmipc
 import (
 	"fmt"
 	"os"
+	"unsafe"
 )
 
 var (
@@ -88,3 +89,16 @@ func vfSameObject(a, b []byte) bool {
 func vfOverlap(a, b []byte) bool { return false }
 func vfOffsetOf(a []byte) int    { return -1 }
 func vfPrune() { panic("VFREPLAY: pruned shape case") }
+
+func vfOffsetIn(a, region []byte) int {
+	if cap(a) == 0 || cap(region) == 0 {
+		return -1
+	}
+	pa := uintptr(unsafe.Pointer(&a[:1][0]))
+	pr := uintptr(unsafe.Pointer(&region[:1][0]))
+	if pa < pr || pa >= pr+uintptr(cap(region)) {
+		return -1
+	}
+	return int(pa - pr)
+}
+func vfSpawnAtomic(f func()) { panic("VFREPLAY: concurrent harness cannot be replayed by the sequential runner") }
